@@ -59,15 +59,19 @@ func (l *LamportClock) Merge(clock iface.IPFSLogLamportClock) iface.IPFSLogLampo
 // Compare calculate the "distance" based on the clock, ie. lower or greater.
 func (l *LamportClock) Compare(b iface.IPFSLogLamportClock) int {
 	// TODO: Make it a Golang slice-compatible sort function
-	dist := l.Time - b.GetTime()
+	// Compare the times directly: their difference can overflow an int and flip the sign.
+	bTime := b.GetTime()
+	if l.Time < bTime {
+		return -1
+	}
+
+	if l.Time > bTime {
+		return 1
+	}
 
 	// If the sequence number is the same (concurrent events),
 	// return the comparison between IDs
-	if dist == 0 {
-		return bytes.Compare(l.ID, b.GetID())
-	}
-
-	return dist
+	return bytes.Compare(l.ID, b.GetID())
 }
 
 // CopyLamportClock returns a copy of a lamport clock
